@@ -8,6 +8,10 @@ import (
 
 // AssignmentToString returns the string representation of the assignment.
 func AssignmentToString(f *model.Function, a model.Assignment) string {
+	if nest, ok := a.(model.NestStruct); ok {
+		return nestStructToString(f, nest)
+	}
+
 	var sb strings.Builder
 	sb.WriteString(a.String())
 	if a.RetError() {
@@ -16,6 +20,28 @@ func AssignmentToString(f *model.Function, a model.Assignment) string {
 		} else {
 			sb.WriteString("if err != nil {\nreturn\n}\n")
 		}
+	}
+	return sb.String()
+}
+
+// nestStructToString renders a nested struct block like NestStruct.String does, but lets every
+// assignment inside it have its error check, too.
+func nestStructToString(f *model.Function, s model.NestStruct) string {
+	var sb strings.Builder
+	if s.NullCheckExpr != "" {
+		sb.WriteString("if ")
+		sb.WriteString(s.NullCheckExpr)
+		sb.WriteString(" != nil {\n")
+	}
+	if s.InitExpr != "" {
+		sb.WriteString(s.InitExpr)
+		sb.WriteString("\n")
+	}
+	for _, content := range s.Contents {
+		sb.WriteString(AssignmentToString(f, content))
+	}
+	if s.NullCheckExpr != "" {
+		sb.WriteString("}\n")
 	}
 	return sb.String()
 }
